@@ -106,6 +106,7 @@ func runC17(c *Ctx, r *Report) {
 	c17ReadErrorsKept(c, r)
 	c17ReaderConsumers(c, r)
 	c17ReadDataKept(c, r)
+	c17NoFailureAsData(c, r)
 }
 
 // ---- R17.1 -----------------------------------------------------------------
